@@ -915,9 +915,16 @@ class Executor:
                     for nme in names:
                         s2.frame.env[nme] = ("compvar", uid, nme)
             elt = node.elt if not isinstance(node, ast.DictComp) else node.value
+            n0 = len(s2.trace)
             res = list(self.eval(elt, s2))
             if len(res) != 1 or is_raise(res[0][1]):
                 raise ValueError
+            # effects of the element expression happen once per element: they are recorded once, marked in_comp
+            s3 = res[0][0]
+            for e in s3.trace[n0:]:
+                if e.k in ("emit", "store", "ucall", "call", "mutate", "substore", "subdel", "attrstore", "nonlocal", "topo"):
+                    st.trace.append(Eff(e.k, e.node, e.mod, **dict(e.d, in_comp=uid)))
+            st.uid = max(st.uid, s3.uid)
             yield st, base + (res[0][1], tuple(iters))
         except Exception:
             yield st, base
@@ -1461,7 +1468,10 @@ class Executor:
                 return
         uid = st.new_uid()
         res = ("call", ft, tuple(allargs), uid)
-        eff = Eff("call", node, mod, func=ft, args=allargs, result=res, method=None, base=None)
+        # a function value of the repository that could not be resolved (a closure variable assigned conditionally, an
+        # entry of a table indexed by a run-time value): what it does is unknown to the rules
+        unresolved = h in ("free", "undef", "opaque", "sub", "ifexp", "loopvar", "compvar", "dict", "tuple", "list", "arg", "bound")
+        eff = Eff("call", node, mod, func=ft, args=allargs, result=res, method=None, base=None, unresolved=unresolved)
         yield from self._may_raise(st, eff, res)
 
     def _dict_lookup(self, d, k, st):
